@@ -350,6 +350,21 @@ static const struct kdump_bmp_ops mem_pagemap_ops = {
 	.cleanup = diskdump_bmp_cleanup,
 };
 
+/** Return a file cache chunk while the cache lock is not held.
+ * @param ctx  Dump file object.
+ * @param fch  File cache chunk.
+ *
+ * Reference counts of file cache entries are shared by all clones,
+ * so they must be updated under the cache lock.
+ */
+static void
+put_chunk_locked(kdump_ctx_t *ctx, struct fcache_chunk *fch)
+{
+	mutex_lock(&ctx->shared->cache_lock);
+	fcache_put_chunk(fch);
+	mutex_unlock(&ctx->shared->cache_lock);
+}
+
 static kdump_status
 diskdump_read_page(struct page_io *pio)
 {
@@ -417,7 +432,7 @@ diskdump_read_page(struct page_io *pio)
 	if (pd.flags & DUMP_DH_COMPRESSED_ZLIB) {
 		ret = uncompress_page_gzip(ctx, pio->chunk.data,
 					   fch.data, pd.size);
-		fcache_put_chunk(&fch);
+		put_chunk_locked(ctx, &fch);
 		if (ret != KDUMP_OK)
 			return ret;
 	} else if (pd.flags & DUMP_DH_COMPRESSED_LZO) {
@@ -427,7 +442,7 @@ diskdump_read_page(struct page_io *pio)
 						pio->chunk.data,
 						&retlen,
 						LZO1X_MEM_DECOMPRESS);
-		fcache_put_chunk(&fch);
+		put_chunk_locked(ctx, &fch);
 		if (ret != LZO_E_OK)
 			return set_error(ctx, KDUMP_ERR_CORRUPT,
 					 "Decompression failed: %d", ret);
@@ -447,7 +462,7 @@ diskdump_read_page(struct page_io *pio)
 		snappy_status ret;
 		ret = snappy_uncompress(fch.data, pd.size,
 					pio->chunk.data, &retlen);
-		fcache_put_chunk(&fch);
+		put_chunk_locked(ctx, &fch);
 		if (ret != SNAPPY_OK)
 			return set_error(ctx, KDUMP_ERR_CORRUPT,
 					 "Decompression failed: %d",
@@ -467,7 +482,7 @@ diskdump_read_page(struct page_io *pio)
 		size_t ret;
 		ret = ZSTD_decompress(pio->chunk.data, get_page_size(ctx),
 				      fch.data, pd.size);
-		fcache_put_chunk(&fch);
+		put_chunk_locked(ctx, &fch);
 		if (ZSTD_isError(ret))
 			return set_error(ctx, KDUMP_ERR_CORRUPT,
 					 "Decompression failed: %s",
